@@ -1,9 +1,233 @@
--- C05: FRI soundness: what the verifier's acceptance implies (property theorems)
-import Winter.Model.Fri
+-- C05: FRI soundness — what acceptance by the verifier implies (property theorems).
+--
+-- The verifier model is `Model.Fri.verify` (Winter/Model/Fri.lean): `FriVerifier::new` followed by
+-- `FriVerifier::verify`, as a pure function of the options, the commitments, the α's drawn for them, the layer
+-- openings (Merkle verification abstracted to a flag per layer), the remainder, the query positions and the claimed
+-- evaluations.  `verify F true …` is the repaired verifier (fix 21c4b77: the remainder is compared with its
+-- commitment), `verify F false …` the verifier of the pinned tree.
+--
+-- Proved here (decision theorems, all inputs, no size bound):
+--   (i)   accept ⇒ the degree bound is divisible by the folding factor at every layer (no DegreeTruncation);
+--   (ii)  accept ⇒ at every layer the opened rows are the committed ones (flag), the values carried from the
+--         previous layer are the opened values at the queried positions, and the values carried to the next
+--         layer are the row interpolants at the layer's challenge (folding consistency, `Chain`);
+--   (iii) accept ⇒ the remainder has at most max_degree_plus_1 coefficients, agrees with the last folded values
+--         at all folded positions, and its hash is the commitment that follows the layer commitments; with an
+--         injective hash it IS the committed remainder.  On the model of the pinned tree the last part fails:
+--         witness `pinned_verifier_accepts_uncommitted_remainder`.
+--   Algebraic lemma: a polynomial of degree > bound, folded honestly, has a last layer that is not the evaluation
+--         of any polynomial with ≤ the allowed number of coefficients unless some α_i is a root of a fixed
+--         non-zero polynomial of degree < N of its layer (`over_degree_honest_folding_rejected`).
+-- NOT claimed: "every function far from low degree is rejected" is a probability statement over α and the query
+--         positions (the soundness error of FRI); no theorem here bounds that probability (see the end of the file).
+import WinterProofs.Lemmas.C05Decision
+import WinterProofs.Lemmas.C05Degree
 
 namespace WinterProofs.C05
 open Model.Fri
 
-theorem placeholder_true : True := trivial
+variable {α D : Type}
+
+/-! ## (i) degree bookkeeping -/
+
+/-- `FriVerifier::new` raises no `DegreeTruncation`: the bound is divisible by the folding factor at every
+    commitment but the last -/
+theorem newChecks_none (N total : Nat) :
+    ∀ (k depth m : Nat), newChecks N total k depth m = none →
+      ∀ j, j < k → depth + j ≠ total - 1 → (m / N ^ j) % N = 0
+  | 0, _, _, _, j, hj, _ => absurd hj (Nat.not_lt_zero j)
+  | k + 1, depth, m, h, j, hj, hne => by
+    simp only [newChecks] at h
+    split at h
+    · exact absurd h (by simp)
+    · rename_i hcond
+      cases j with
+      | zero =>
+        simp only [Nat.add_zero] at hne
+        simp only [Nat.pow_zero, Nat.div_one]
+        by_cases hm : m % N = 0
+        · exact hm
+        · exact absurd ⟨hne, hm⟩ hcond
+      | succ j =>
+        have := newChecks_none N total k (depth + 1) (m / N) h j (by omega) (by omega)
+        rw [Nat.div_div_eq_div_mul] at this
+        rw [Nat.pow_succ, Nat.mul_comm]
+        exact this
+
+/-- (i) acceptance implies that the claimed degree bound (plus one) is divisible by the folding factor at every
+    layer that is folded, i.e. no degree truncation happens anywhere -/
+theorem accept_degree_bookkeeping (F : FOps α) [BEq D] (cc : Bool) (hashRem : List α → D) (o : Opts)
+    (inp : VInput α D) (h : verify F cc hashRem o inp = .ok ()) :
+    ∀ d, d < numFriLayers o (nextPow2 (inp.maxPolyDegree + 1) * o.blowup) →
+      ((inp.maxPolyDegree + 1) / o.folding ^ d) % o.folding = 0 := by
+  obtain ⟨_, _, stL, hchain, _⟩ := verify_ok F cc hashRem o inp h
+  exact (Chain.maxDeg F o.folding inp _ hchain).2.2
+
+/-! ## (ii) folding consistency -/
+
+/-- (ii) acceptance implies a chain of layer iterations each of which satisfied `LayerOk`: Merkle flag true (the
+    opened rows are the committed ones), one row per folded position, the carried values equal the opened values
+    at the queried positions, and the next carried values are the row interpolants at the layer's α -/
+theorem accept_folding_consistent (F : FOps α) [BEq D] (cc : Bool) (hashRem : List α → D) (o : Opts)
+    (inp : VInput α D) (h : verify F cc hashRem o inp = .ok ()) :
+    ∃ stL, Chain F o.folding inp (foldingRoots F o inp)
+      (numFriLayers o (nextPow2 (inp.maxPolyDegree + 1) * o.blowup)) 0 (initState F o inp) stL := by
+  obtain ⟨_, _, stL, hchain, _⟩ := verify_ok F cc hashRem o inp h
+  exact ⟨stL, hchain⟩
+
+/-- what two consecutive successful iterations say together: the values opened in layer `d+1` at the folded
+    positions are the interpolants at `α_d` of the rows opened in layer `d` -/
+theorem folding_step (F : FOps α) (N : Nat) (inp : VInput α D) (roots : List α) (d : Nat)
+    (st st1 st2 : VState α) (h1 : LayerOk F N inp roots d st st1) (h2 : LayerOk F N inp roots (d + 1) st1 st2) :
+    ∃ folded rows alpha folded' rows' qv,
+      foldPositions st.positions st.domainSize N = some folded ∧
+      (inp.layers[d]?).map (·.rows) = some rows ∧ inp.alphas[d]? = some alpha ∧
+      foldPositions folded (st.domainSize / N) N = some folded' ∧
+      (inp.layers[d + 1]?).map (·.rows) = some rows' ∧
+      getQueryValues rows' folded folded' (st.domainSize / N) N = some qv ∧
+      beqList F ((folded.zip rows).map fun (i, row) =>
+        lagrangeEval F (rowPoints F roots st.domainGen i) row alpha) qv = true := by
+  obtain ⟨folded, opening, alpha, _, hf, ho, ha, _, _, _, _, _, _, hst⟩ := h1
+  obtain ⟨folded', opening', _, qv', hf', ho', _, _, _, _, hq', hb', _, _⟩ := h2
+  subst hst
+  exact ⟨folded, opening.rows, alpha, folded', opening'.rows, qv', hf, by simp [ho], ha, hf', by simp [ho'],
+    hq', hb'⟩
+
+/-! ## (iii) the remainder -/
+
+/-- (iii) acceptance by the repaired verifier implies: the hash of the remainder is the commitment that follows
+    the layer commitments, the remainder has at most `max_degree_plus_1` coefficients (the bound divided by
+    `N^layers`), and it agrees with the last folded values at all folded positions -/
+theorem accept_remainder (F : FOps α) [BEq D] (hashRem : List α → D) (o : Opts) (inp : VInput α D)
+    (h : verify F true hashRem o inp = .ok ()) :
+    let L := numFriLayers o (nextPow2 (inp.maxPolyDegree + 1) * o.blowup)
+    remainderCommitted hashRem inp L = true ∧
+    inp.remainder.length ≤ (inp.maxPolyDegree + 1) / o.folding ^ L ∧
+    ∃ stL, Chain F o.folding inp (foldingRoots F o inp) L 0 (initState F o inp) stL ∧
+      ∀ pe ∈ stL.positions.zip stL.evals,
+        F.beq (horner F inp.remainder (F.mul F.offset (pow F stL.domainGen pe.1))) pe.2 = true := by
+  obtain ⟨_, _, stL, hchain, hrem⟩ := verify_ok F true hashRem o inp h
+  obtain ⟨h1, h2, h3⟩ := verifyRemainder_ok F hashRem inp _ stL hrem
+  have hm := (Chain.maxDeg F o.folding inp _ hchain).1
+  refine ⟨h1, ?_, stL, hchain, h3⟩
+  rw [hm] at h2
+  exact h2
+
+/-- with a lawful equality on digests and an injective hash, the accepted remainder IS the committed one -/
+theorem accept_remainder_is_committed (F : FOps α) [BEq D] [LawfulBEq D] (hashRem : List α → D)
+    (hinj : Function.Injective hashRem) (o : Opts) (inp : VInput α D) (committed : List α)
+    (hcommit : inp.commitments[numFriLayers o (nextPow2 (inp.maxPolyDegree + 1) * o.blowup)]?
+      = some (hashRem committed))
+    (h : verify F true hashRem o inp = .ok ()) :
+    inp.remainder = committed := by
+  have h1 := (accept_remainder F hashRem o inp h).1
+  unfold remainderCommitted at h1
+  rw [hcommit] at h1
+  simp only [beq_iff_eq] at h1
+  exact hinj h1
+
+/-- the pinned verifier (no comparison with the commitment) satisfies the other two parts of (iii) only -/
+theorem pinned_accept_remainder (F : FOps α) [BEq D] (hashRem : List α → D) (o : Opts) (inp : VInput α D)
+    (h : verify F false hashRem o inp = .ok ()) :
+    let L := numFriLayers o (nextPow2 (inp.maxPolyDegree + 1) * o.blowup)
+    inp.remainder.length ≤ (inp.maxPolyDegree + 1) / o.folding ^ L ∧
+    ∃ stL, Chain F o.folding inp (foldingRoots F o inp) L 0 (initState F o inp) stL ∧
+      ∀ pe ∈ stL.positions.zip stL.evals,
+        F.beq (horner F inp.remainder (F.mul F.offset (pow F stL.domainGen pe.1))) pe.2 = true := by
+  obtain ⟨_, _, stL, hchain, hrem⟩ := verify_ok F false hashRem o inp h
+  obtain ⟨h2, h3⟩ := verifyRemainder_unrepaired_ok F hashRem inp _ stL hrem
+  have hm := (Chain.maxDeg F o.folding inp _ hchain).1
+  refine ⟨?_, stL, hchain, h3⟩
+  rw [hm] at h2
+  exact h2
+
+/-! ### witness: the pinned verifier accepts a remainder that was not committed to -/
+
+/-- the field of 17 elements on naturals (3 generates the multiplicative group) -/
+def f17 : FOps Nat where
+  zero := 0
+  one := 1
+  add a b := (a + b) % 17
+  sub a b := (a + 17 - b % 17) % 17
+  mul a b := (a * b) % 17
+  inv a := a ^ 15 % 17
+  beq a b := a % 17 == b % 17
+  ofNat n := n % 17
+  root k := 3 ^ (16 / 2 ^ k) % 17
+  rootOk k := k != 0 && decide (k ≤ 4)
+  offset := 3
+
+/-- degree bound 3, blowup 2 (domain 8), folding 2, remainder of up to 4 coefficients: no layers.  The prover
+    committed to the remainder `5` and, after seeing the query position 1 and the claimed value 7, presents the
+    remainder `7`. -/
+def witnessInput : VInput Nat (List Nat) where
+  maxPolyDegree := 3
+  numPartitions := 1
+  commitments := [[5, 0, 0, 0]]
+  alphas := [1]
+  layers := []
+  remainder := [7, 0, 0, 0]
+  positions := [1]
+  evaluations := [7]
+
+def witnessOpts : Opts := ⟨2, 2, 3, Or.inl rfl⟩
+
+/-- on the model of the pinned tree part (iii) is false: the verifier accepts although the remainder is not the
+    committed one (found by the harness as `fri.adv.adaptrem.accepted` / `fri.verify.remainder-not-committed`) -/
+theorem pinned_verifier_accepts_uncommitted_remainder :
+    verify f17 false id witnessOpts witnessInput = .ok () ∧
+    remainderCommitted id witnessInput (numFriLayers witnessOpts 8) = false := by
+  decide +kernel
+
+/-- the repaired verifier rejects the same input -/
+theorem repaired_verifier_rejects_uncommitted_remainder :
+    verify f17 true id witnessOpts witnessInput = .err .remainderCommitmentMismatch := by
+  decide +kernel
+
+/-! ## the algebraic lemma: honest folding of an over-degree polynomial -/
+
+section algebra
+open Polynomial FriAlg
+variable {K : Type*} [Field K]
+
+/-- Let `f` have degree `≥ N^L · m` (above the bound `N^L·m − 1`), let the layers be folded honestly with the
+    challenges `αs` (each layer re-read over the same offset, `c = offset^(N-1) ≠ 0`), and let no `α_i` be a root of
+    the lead polynomial of its layer (a fixed non-zero polynomial of degree `< N`: `leadPoly_ne_zero`,
+    `natDegree_leadPoly_lt`).  Then the last layer is not the evaluation, over any set of more than
+    `deg(last layer)` points, of a polynomial with at most `m` coefficients: no remainder passes on the whole
+    last domain. -/
+theorem over_degree_honest_folding_rejected {N : ℕ} (hN : 0 < N) {c : K} (hc : c ≠ 0) (αs : List K)
+    (f r : K[X]) (m : ℕ) (s : Finset K)
+    (hdeg : N ^ αs.length * m ≤ f.natDegree) (hgood : GoodChallenges N c αs f)
+    (hs : (foldLayers N c αs f).natDegree < s.card) (hr : r.natDegree < m) :
+    ¬ ∀ y ∈ s, (foldLayers N c αs f).eval y = r.eval y :=
+  over_degree_rejected hN hc αs f r m s hdeg hgood hs hr
+
+/-- the exceptional challenges of one layer are the roots of one non-zero polynomial of degree `< N` -/
+theorem bad_challenges_few {N : ℕ} (hN : 0 < N) (f : K[X]) (hf : f ≠ 0) :
+    leadPoly N f ≠ 0 ∧ (leadPoly N f).natDegree < N ∧ Multiset.card (leadPoly N f).roots < N :=
+  ⟨leadPoly_ne_zero hN hf, natDegree_leadPoly_lt hN f, card_roots_leadPoly_lt hN f⟩
+
+/-- a polynomial within the bound stays within the bound under honest folding (sanity: the lemma above does not
+    reject honest provers) -/
+theorem low_degree_honest_folding {N : ℕ} (hN : 0 < N) {c : K} (hc : c ≠ 0) (αs : List K) (f : K[X]) (m : ℕ)
+    (hdeg : f.natDegree < N ^ αs.length * m) : (foldLayers N c αs f).natDegree < m :=
+  low_degree_foldLayers hN hc αs f m hdeg
+
+example : GoodChallenges 2 (3 : ℚ) [1] (X ^ 5 + 1) := by
+  simp only [GoodChallenges, and_true]
+  rw [eval_leadPoly]
+  have hd : (X ^ 5 + 1 : ℚ[X]).natDegree = 5 := by
+    rw [natDegree_add_eq_left_of_natDegree_lt] <;> simp
+  simp [hd, coeff_X_pow, coeff_one]
+  exact ⟨1, le_refl 1, rfl⟩
+
+end algebra
+
+/- The full soundness statement of the property — every function that is δ-far from all polynomials of the claimed
+   degree is rejected except with probability ε(δ, queries, |F|) over the challenges and the query positions — is a
+   statement about a probability space that this development does not model (named gap "soundness error").  The
+   harness shows the gap is real and benign: the `lowfold` adversary (commit to a corrupted function, fold the
+   low-degree polynomial next to it) is accepted exactly when no queried row meets a corrupted point. -/
 
 end WinterProofs.C05
